@@ -725,7 +725,13 @@ func RunVariant(ctx context.Context, sc *Scn, port uint16) (*result.TracerouteRu
 		t.LoosenICMPSrc = vi.Relaxed
 		return t.Traceroute()
 	case "sack":
-		return sack.RunSackTraceroute(ctx, sack.Params{Target: netip.AddrPortFrom(SackAddr, port), HandshakeTimeout: timeout, FinTimeout: 500 * time.Millisecond,
+		// HandshakeTimeout is also the REAL-time limit of the kernel dial to the harness listener: generous, so that a loaded
+		// machine cannot turn it into a spurious failure (it plays no role on the virtual clock before the handshake read)
+		hs := timeout
+		if hs < 3*time.Second {
+			hs = 3 * time.Second
+		}
+		return sack.RunSackTraceroute(ctx, sack.Params{Target: netip.AddrPortFrom(SackAddr, port), HandshakeTimeout: hs, FinTimeout: 500 * time.Millisecond,
 			ParallelParams: pp, LoosenICMPSrc: vi.Relaxed})
 	}
 	return nil, fmt.Errorf("unknown variant")
